@@ -4,17 +4,21 @@ From HS Require Import Lib.Base Lib.Bytes Lib.Hex.
 
 Definition CHUNK_SIZE : N := 65536.
 
-Record fmeta := { f_is_file : bool; f_ino : N; f_len : N; f_mtime_ns : N }.
+(* the modification time is |t| nanoseconds from the epoch, f_mtime_neg telling on which side (fix F12:
+   times before 1970 are printed with a minus sign instead of refused) *)
+Record fmeta := { f_is_file : bool; f_ino : N; f_len : N; f_mtime_ns : N; f_mtime_neg : bool }.
 
 (* ChunkedReadFile::new_with_metadata: refuses anything but a regular file; captures the metadata *)
 Definition crf_new (m : fmeta) : option fmeta := if f_is_file m then Some m else None.
 Definition crf_len (m : fmeta) : N := f_len m.
 Definition crf_last_modified (m : fmeta) : N := f_mtime_ns m.
+Definition crf_last_modified_neg (m : fmeta) : bool := f_mtime_neg m.
 
-(* etag(): "{:x}:{:x}:{:x}:{:x}" of inode, len, mtime secs, mtime subsec nanos, in double quotes *)
+(* etag(): "{:x}:{:x}:{}{:x}:{:x}" of inode, len, sign, |mtime| secs, subsec nanos, in double quotes *)
 Definition NSEC : N := 1000000000.
+Definition mtime_sign (m : fmeta) : bytes := if f_mtime_neg m then [45] else [].
 Definition crf_etag (m : fmeta) : bytes :=
-  [34] ++ hex (f_ino m) ++ [58] ++ hex (f_len m) ++ [58] ++ hex (f_mtime_ns m / NSEC) ++ [58] ++ hex (f_mtime_ns m mod NSEC) ++ [34].
+  [34] ++ hex (f_ino m) ++ [58] ++ hex (f_len m) ++ [58] ++ (mtime_sign m ++ hex (f_mtime_ns m / NSEC)) ++ [58] ++ hex (f_mtime_ns m mod NSEC) ++ [34].
 
 Section WithFile.
 (* the file as the kernel shows it at the time of the k-th read: its length (truncation = the
